@@ -138,6 +138,12 @@ pub fn check(h: &Hist, acc: &mut Acc) -> Check {
     let req1 = first_request(h);
     let with_if_range = req1.has("if-range");
     let future = match h.mtime {
+        Mtime::Before(..) => {
+            // not expressible as an HTTP-date by this stack (httpdate starts at the epoch): outside
+            // the statement's "modification time"; totality for such entities is C13's subject
+            acc.count("pre-epoch-mtime-outside-premise");
+            return Ok(());
+        }
         Mtime::Future(..) => true,
         Mtime::At(s, _) => s + 5 >= reqgen::now_secs(),
         Mtime::None => false,
